@@ -20,5 +20,6 @@ Separate Extraction
   PubSubSanity.sanity_check PubSubSanity.sanity_fires PubSubSanity.add_subscribers
   Notifier.run_publish Notifier.run_publish_gen Notifier.spec_publish Notifier.iter_raw
   Notifier.subscribe Notifier.unsubscribe Notifier.lookup
+  Notifier.subscribe_ctx Notifier.unsubscribe_ctx Notifier.publish_ready
   ExclusiveAbs.init ExclusiveAbs.step ExclusiveAbs.run ExclusiveAbs.observe ExclusiveAbs.all_picks ExclusiveAbs.all_vars ExclusiveAbs.terminalb
   Cleaner.default_cleaner Cleaner.fixed_cleaner Cleaner.clamp_shift Cleaner.default_spec.
